@@ -124,6 +124,21 @@ func (in *Interp) lowerOf(v Value) Value {
 func (in *Interp) symStrEq(a, b Value) *sym.Term {
 	sa, oka := a.(*SymStr)
 	sb, okb := b.(*SymStr)
+	if oka && sa.Line {
+		if c, ok := b.(string); ok {
+			return in.lineEqConst(sa, c)
+		}
+		if okb && sb.Line && sa.Str == sb.Str && sa.From == sb.From {
+			return in.B.True()
+		}
+		if okb && sb.Line && sa.From == 0 && sb.From == 0 {
+			return in.B.Eq(sa.Str, sb.Str)
+		}
+		in.unmodelled("comparison of two derived symbolic lines")
+	}
+	if okb && sb.Line {
+		return in.symStrEq(b, a)
+	}
 	if (oka && sa.Str != nil) || (okb && sb.Str != nil) {
 		return in.B.Eq(in.strTerm(a), in.strTerm(b))
 	}
@@ -174,6 +189,24 @@ func (in *Interp) symStrLen(x *SymStr) Value {
 }
 
 func (in *Interp) symStrSlice(b *SymStr, x *ssa.Slice, fr *frame) Value {
+	if b.Line {
+		lo, hi := 0, -1
+		if x.Low != nil {
+			n, ok := concreteInt(in.get(fr, x.Low))
+			if !ok {
+				in.unmodelled("symbolic slice bound on a symbolic line")
+			}
+			lo = int(n)
+		}
+		if x.High != nil {
+			n, ok := concreteInt(in.get(fr, x.High))
+			if !ok {
+				in.unmodelled("symbolic slice bound on a symbolic line")
+			}
+			hi = int(n)
+		}
+		return in.lineSlice(b, lo, hi)
+	}
 	if h := in.SymStrSliceHook; h != nil {
 		lo, hi := -1, -1
 		if x.Low != nil {
